@@ -23,24 +23,24 @@ Local Notation step_inv := (TxFlow_Inv.step_inv dl all).
 Local Notation step_delay := (TxFlow_Inv.step_delay dl all).
 
 (* every operation of the history *)
-Lemma step_sim Rs n m o : Inv Rs n m -> o ∈ all -> op_ok n Rs o = true ->
-  exists m', monitor_step dl m o (snd (step n o)) = (0, m') /\ Inv (next_R n Rs o) (fst (step n o)) m'.
+Lemma step_sim n m o : Inv n m -> o ∈ all -> op_ok n o = true ->
+  exists m', monitor_step dl m o (snd (step n o)) = (0, m') /\ Inv (fst (step n o)) m'.
 Proof.
   intros HI Ho Hok. destruct o as [t body rel src|t trusted|b prev txs valid|b prev txs valid| |dt|b| |t| |h].
   - apply step_tx; assumption.
-  - cbn [step next_R]. pose proof (step_inv Rs n m t trusted HI) as H. cbv zeta in H. exact H.
-  - cbn [next_R]. apply step_block; assumption.
-  - cbn [next_R]. apply step_reorg; assumption.
-  - cbn [step next_R]. pose proof (step_delay Rs n m HI) as H. destruct (delay_check n) as [n1 evs]. exact H.
-  - cbn [step fst snd next_R]. apply step_advance; [exact HI|apply (v_adv _ _ Hv), Ho].
-  - cbn [step fst snd next_R]. apply step_setsync. exact HI.
-  - cbn [step fst snd next_R]. apply step_restart. exact HI.
-  - cbn [step fst snd next_R]. apply step_gettx. exact HI.
-  - cbn [step fst snd next_R]. apply step_unconf. exact HI.
-  - cbn [step fst snd next_R]. apply step_blocktxs. exact HI.
+  - cbn [step]. pose proof (step_inv n m t trusted HI) as H. cbv zeta in H. exact H.
+  - apply step_block; assumption.
+  - apply step_reorg; assumption.
+  - cbn [step]. pose proof (step_delay n m HI) as H. destruct (delay_check n) as [n1 evs]. exact H.
+  - cbn [step fst snd]. apply step_advance; [exact HI|apply (v_adv _ _ Hv), Ho].
+  - cbn [step fst snd]. apply step_setsync. exact HI.
+  - cbn [step fst snd]. apply step_restart. exact HI.
+  - cbn [step fst snd]. apply step_gettx. exact HI.
+  - cbn [step fst snd]. apply step_unconf. exact HI.
+  - cbn [step fst snd]. apply step_blocktxs. exact HI.
 Qed.
 
-Lemma Inv_init : Inv [] (n_init dl) ms_init.
+Lemma Inv_init : Inv (n_init dl) ms_init.
 Proof.
   split.
   - split; cbn.
@@ -56,6 +56,7 @@ Proof.
     + intros t. rewrite lookup_empty. reflexivity.
     + intros t s b H. rewrite lookup_empty in H. discriminate.
     + intros t s b H. rewrite lookup_empty in H. discriminate.
+    + intros t s body rel H. rewrite lookup_empty in H. discriminate.
   - split; cbn; try reflexivity.
     + apply R_init.
     + intros t b H. apply elem_of_nil in H. destruct H.
@@ -74,20 +75,20 @@ Proof.
     + intros t H. apply elem_of_nil in H. destruct H.
     + intros t u H. rewrite lookup_empty in H. discriminate.
     + intros t H. apply elem_of_nil in H. destruct H.
-    + intros t H. apply elem_of_nil in H. destruct H.
     + intros t b s H. apply elem_of_nil in H. destruct H.
-    + intros t b s H. apply elem_of_nil in H. destruct H.
+    + intros t u H. rewrite lookup_empty in H. discriminate.
+    + constructor.
 Qed.
 
-Lemma monitor_silent_from ops' : forall n m i Rs,
-  Inv Rs n m -> (forall o, o ∈ ops' -> o ∈ all) -> hyp_from n Rs ops' = true ->
+Lemma monitor_silent_from ops' : forall n m i,
+  Inv n m -> (forall o, o ∈ ops' -> o ∈ all) -> hyp_from n ops' = true ->
   monitor_from dl m i ops' (run_from n ops') = None.
 Proof.
-  induction ops' as [|o ops' IH]; intros n m i Rs HI Hsub Hhyp; [reflexivity|].
+  induction ops' as [|o ops' IH]; intros n m i HI Hsub Hhyp; [reflexivity|].
   cbn [run_from monitor_from]. cbn [hyp_from] in Hhyp. apply andb_true_iff in Hhyp. destruct Hhyp as [Hok Hhyp].
-  destruct (step_sim Rs n m o HI) as (m' & Hm & HI'); [apply Hsub; left|exact Hok|].
+  destruct (step_sim n m o HI) as (m' & Hm & HI'); [apply Hsub; left|exact Hok|].
   destruct (step n o) as [n1 ob]. cbn [fst snd] in Hm, HI', Hhyp. rewrite Hm. cbn [Z.eqb negb].
-  apply (IH n1 m' (i + 1) (next_R n Rs o)); [exact HI'| |exact Hhyp]. intros o' Ho'. apply Hsub. right. exact Ho'.
+  apply (IH n1 m' (i + 1)); [exact HI'| |exact Hhyp]. intros o' Ho'. apply Hsub. right. exact Ho'.
 Qed.
 
 End Flow.
@@ -97,7 +98,7 @@ Theorem txflow_monitor_silent :
     flow_valid delay ops = true -> txflow_monitor delay ops (run delay ops) = None.
 Proof.
   intros delay ops H. apply flow_valid_valid in H. destruct H as [Hv Hh]. unfold txflow_monitor, run.
-  apply (monitor_silent_from delay ops Hv ops (n_init delay) ms_init 0 []); [apply Inv_init|auto|exact Hh].
+  apply (monitor_silent_from delay ops Hv ops (n_init delay) ms_init 0); [apply Inv_init|auto|exact Hh].
 Qed.
 
 Lemma txflow_never_objects_any :
